@@ -943,7 +943,7 @@ fn secp_p(k1: bool) -> BigUint {
 }
 
 /// (compressed pubkey, uncompressed pubkey, prehash, signature r||s) — a valid signature
-fn secp_valid(rng: &mut Rng, k1: bool) -> (Vec<u8>, Vec<u8>, Vec<u8>, Vec<u8>) {
+pub fn secp_valid(rng: &mut Rng, k1: bool) -> (Vec<u8>, Vec<u8>, Vec<u8>, Vec<u8>) {
     let msg = rng.bytes(32);
     loop {
         let key = rng.bytes(32);
